@@ -470,13 +470,40 @@ class LBytes:
 # objects
 
 
+class MissingField(KeyError, Unsupported):
+    """a contract (clause, invariant or havoc) refers to a PRIVATE attribute that the object does not have: the
+    implementation detail was renamed or removed; the contract cannot be evaluated (undecided, never a violation)"""
+
+    def __str__(self):
+        return "the contract refers to private state %r that the object does not have (renamed or removed?)" % (self.args[0],)
+
+
+def _private(k):
+    return isinstance(k, str) and k.startswith("_") and not k.startswith("__")
+
+
+HAVOC_ACTIVE = [False]
+
+
+class FieldDict(dict):
+    def __missing__(self, k):
+        if _private(k):
+            raise MissingField(k)
+        raise KeyError(k)
+
+    def __setitem__(self, k, v):
+        if HAVOC_ACTIVE[0] and _private(k) and k not in self:
+            raise MissingField(k)
+        dict.__setitem__(self, k, v)
+
+
 class SObj:
     """Instance of a (real) class; fields live here.  Per-path object (paths are re-executed)."""
     _next = [0]
 
     def __init__(self, cls, fields=None, name=None):
         self.cls = cls
-        self.fields = dict(fields or {})
+        self.fields = FieldDict(fields or {})
         SObj._next[0] += 1
         self.oid = SObj._next[0]
         self.name = name
